@@ -84,13 +84,19 @@ def _last_def(fn, name: str, at, parents):
     return last
 
 
-def _flat_at(fn, expr, at, parents, depth=0) -> bool | None:
-    """is the value of `expr` at `at` the result of _flatten_list?  None = cannot tell"""
+def _flat_at(fn, expr, at, parents, depth=0, entry_flat=None) -> bool | None:
+    """is the value of `expr` at `at` the result of _flatten_list?  None = cannot tell.
+    entry_flat: {parameter: flattened at function entry?} for a helper analysed at a call site"""
     if _is_flatten_call(expr):
         return True
+    if isinstance(expr, ast.Call) and isinstance(expr.func, ast.Attribute) and isinstance(expr.func.value, ast.Name) and \
+            expr.func.value.id == 'self' and expr.func.attr in ('_when_cell_is_empty_cast_to_zero',) and len(expr.args) == 1:
+        return _flat_at(fn, expr.args[0], at, parents, depth + 1, entry_flat)     # element-wise map keeps the shape
     if isinstance(expr, ast.Name):
         d = _last_def(fn, expr.id, at, parents)
         if d is None:
+            if entry_flat and expr.id in entry_flat:
+                return entry_flat[expr.id]
             return False                    # the raw parameter / loop element
         if isinstance(d, str):
             return None
@@ -98,7 +104,7 @@ def _flat_at(fn, expr, at, parents, depth=0) -> bool | None:
             return None
         if isinstance(d, ast.Name) and d.id == expr.id:
             return None
-        return _flat_at(fn, d, at, parents, depth + 1) if not _is_flatten_call(d) else True
+        return _flat_at(fn, d, at, parents, depth + 1, entry_flat) if not _is_flatten_call(d) else True
     return None
 
 
@@ -132,9 +138,39 @@ def _ifs_helper(run: Run, cp, fn):
         raise AnalysisError('C12.R1', f'{h}: expected (target, ..., *pairs)')
     target, var = ps[0], fn.args.vararg.arg
     callables = set(ps[1:])             # e.g. count_condition
+    outer_fn, outer_target = fn, target
+    entry_flat = None
     # the loop over the (range, criterion, range, criterion, ...) arguments
     loops = [n for n in ast.walk(fn) if isinstance(n, ast.For) and isinstance(n.iter, ast.Name) and n.iter.id == var and
              isinstance(n.target, ast.Name)]
+    if not loops:
+        # the pairing may live in a shared helper: self._helper(<target>, <pairs>, ...) -- analyse the helper with the facts of
+        # this call site (is the target flattened when it is handed over?)
+        calls = [c for c in ast.walk(fn) if isinstance(c, ast.Call) and isinstance(c.func, ast.Attribute) and
+                 isinstance(c.func.value, ast.Name) and c.func.value.id == 'self' and
+                 any(isinstance(a, ast.Name) and a.id == var for a in c.args) and c.func.attr in cp.members]
+        if len(calls) != 1:
+            raise AnalysisError('C12.R1', f'{h}: expected exactly one loop over *{var} (or one helper that receives it), found none')
+        call = calls[0]
+        callee = cp.members[call.func.attr]
+        cps = _params(callee)
+        amap = {}
+        for i_, a in enumerate(call.args):
+            if i_ < len(cps):
+                amap[cps[i_]] = a
+        var2 = [k for k, a in amap.items() if isinstance(a, ast.Name) and a.id == var]
+        tgt2 = [k for k, a in amap.items() if target in _names(a)]
+        if len(var2) != 1 or len(tgt2) != 1:
+            raise AnalysisError('C12.R1', f'{h}: cannot map the arguments of `{ast.unparse(call)[:60]}` onto {callee.name}')
+        ft0 = _flat_at(fn, amap[tgt2[0]], call, parents)
+        if ft0 is None:
+            raise AnalysisError('C12.R1', f'{h}: cannot tell whether `{ast.unparse(amap[tgt2[0]])}` is flattened at the call of {callee.name}')
+        entry_flat = {tgt2[0]: ft0}
+        fn, target, var = callee, tgt2[0], var2[0]
+        parents = parent_map(fn)
+        h = f'{h} via {callee.name}'
+        loops = [n for n in ast.walk(fn) if isinstance(n, ast.For) and isinstance(n.iter, ast.Name) and n.iter.id == var and
+                 isinstance(n.target, ast.Name)]
     if len(loops) != 1:
         raise AnalysisError('C12.R1', f'{h}: expected exactly one loop over *{var}, found {len(loops)}')
     loop = loops[0]
@@ -190,8 +226,8 @@ def _ifs_helper(run: Run, cp, fn):
                   f'{h}: the size check `{ast.unparse(cmpn)}` is not executed before the criteria range is stored for selection',
                   fact='size check precedes the store of the range', loc=cp.loc(cmpn))
         # flattened operands
-        ft = _flat_at(fn, t_expr, cmpn, parents)
-        fe = _flat_at(fn, e_expr, cmpn, parents)
+        ft = _flat_at(fn, t_expr, cmpn, parents, entry_flat=entry_flat)
+        fe = _flat_at(fn, e_expr, cmpn, parents, entry_flat=entry_flat)
         if ft is None or fe is None:
             raise AnalysisError('C12.R1', f'{h}: cannot determine whether the operands of `{ast.unparse(cmpn)}` are flattened')
         run.check(ft and fe, 'C12.R1', construct + '/flattened', 'size-check-unflattened',
@@ -210,7 +246,7 @@ def _ifs_helper(run: Run, cp, fn):
             run.check(has, 'C12.R1', f'{h}[{cp.label}]/store@{ast.unparse(v)[:40]}', 'store-without-size-check',
                       f'{h}: the criteria range stored by `{ast.unparse(c)[:70]}` has not passed the size check',
                       fact='store dominated by the size check', loc=cp.loc(c))
-    _selection_loops(run, cp, fn, target, callables)
+    _selection_loops(run, cp, outer_fn, outer_target, callables)
 
 
 def _index_loops(fn):
@@ -494,6 +530,78 @@ def r3(run: Run, src, em):
                 f'plain equality with the text \'<>x\'', loc=loc)
     else:
         run.ok('C12.R3', 'LambdaTokenTranslator/prefix followed by text', f'value group admits {vclass}', loc=loc)
+    # a numeric criterion value is ONE conversion of the whole number text: int()/float() of a part of it (the integer digits
+    # only, say) drops whatever else the number was written with (a fraction, an exponent)
+    from .common import iter_parts, _groups_in_num
+    from ..symeval import Code as _Code, GroupStr as _GroupStr
+    from ..regexmodel import sre_c as _c
+    owner = f'regex:{rx.flags & ~32}:' + rx.pattern
+    vgroup = 2
+
+    def contains_group(items, gid):
+        for op_, av_ in items:
+            if op_ is _c.SUBPATTERN:
+                if av_[0] == gid or contains_group(av_[3], gid):
+                    return True
+            elif op_ in (_c.MAX_REPEAT, _c.MIN_REPEAT):
+                if contains_group(av_[2], gid):
+                    return True
+            elif op_ is _c.BRANCH:
+                if any(contains_group(b, gid) for b in av_[1]):
+                    return True
+        return False
+
+    def groups_in(items):
+        out = []
+        for op_, av_ in items:
+            if op_ is _c.SUBPATTERN:
+                if av_[0] is not None:
+                    out.append(av_[0])
+                out += groups_in(av_[3])
+            elif op_ in (_c.MAX_REPEAT, _c.MIN_REPEAT):
+                out += groups_in(av_[2])
+            elif op_ is _c.BRANCH:
+                for b in av_[1]:
+                    out += groups_in(b)
+        return out
+    checked_conv = set()
+    for e in em.pairs[key]:
+        o = e.outcome
+        if o.kind != 'return' or not isinstance(o.value, _Code):
+            continue
+        for prt in iter_parts(o.value):
+            if prt.kind != 'num':
+                continue
+            for gs in _groups_in_num(prt.a):
+                if not isinstance(gs, _GroupStr) or not gs.owner.startswith('regex:') or gs.owner.split(':', 2)[2] != rx.pattern:
+                    continue
+                present = {k[3] for k, v in o.world.items() if k[0] == 'grp' and isinstance(k[1], str) and k[1].startswith('regex:') and v}
+                absent = {k[3] for k, v in o.world.items() if k[0] == 'grp' and isinstance(k[1], str) and k[1].startswith('regex:') and not v}
+                sig = (gs.gid, tuple(sorted(present)), tuple(sorted(absent)))
+                if sig in checked_conv:
+                    continue
+                checked_conv.add(sig)
+                construct = f'LambdaTokenTranslator/number from group {gs.gid} (present {sorted(present)}, absent {sorted(absent)})'
+                if gs.gid == vgroup:
+                    run.ok('C12.R3', construct, 'the whole number text is converted', loc=loc)
+                    continue
+                lost = []
+                for item in rx.group_nodes[vgroup]:
+                    items = [item]
+                    if contains_group(items, gs.gid):
+                        continue
+                    gids = groups_in(items)
+                    if gids:
+                        top = [g_ for g_ in gids if rx.group_ctx[g_]['chain'] == [vgroup]] or gids
+                        if not all(g_ in absent for g_ in top):
+                            lost.append(f'group(s) {top}')
+                    else:
+                        # an uncaptured part: its presence cannot be tested by the translator at all
+                        lost.append('an uncaptured part of the number (e.g. the exponent)')
+                run.check(not lost, 'C12.R3', construct, f'number-part-dropped:group{gs.gid}',
+                          f'the criterion number is converted from group {gs.gid} of {rx.pattern!r} only, while {", ".join(lost)} of the '
+                          f'number may be present: ">1e3" is then compared as "> 1"', fact='nothing else of the number can be present',
+                          loc=loc)
     for (op, shp), e in sorted(shapes.items(), key=lambda kv: (kv[0][0], str(kv[0][1]))):
         sk = skeleton_of(em, e)
         body = (list(sk.subs.values()) or [sk])[0]
